@@ -94,6 +94,9 @@ H('k5_round_robin_call_uses_next', 'round_robin', ['tarpc/src/client/stub/load_b
 H('k5_consistent_hash_valid_and_stable', 'consistent_hash', ['tarpc/src/client/stub/load_balance.rs::ConsistentHash::with_hasher', 'tarpc/src/client/stub/load_balance.rs::ConsistentHash::call', 'tarpc/src/client/stub/load_balance.rs::ConsistentHash::hash_request'],
   'picks only a valid backend (no panic), backend == hash(request) % len, equal requests -> same backend; symbolic hash function',
   bounded='backend count enumerated 1..=3', timeout=1200)
+H('k5_retry_attempts_numbered_and_last_result', 'retry', ['tarpc/src/client/stub/retry.rs::Retry::call', 'tarpc/src/client/stub/retry.rs::Retry::new'],
+  'one backend call and one policy consultation per attempt until the policy declines; attempt numbers 1,2,3; identical Arc each time; each result shown to the policy; last result returned unchanged; symbolic results, decisions, deadline and clock',
+  bounded='the policy declines by the third attempt (unwind 5, unwinding assertions on)', stubs=CLK + ['tracing dispatcher entry points -> no subscriber interested'], timeout=1200)
 H('k5_serve_as_stub_passes_through', 'stub_serve', ['tarpc/src/client/stub.rs::<S as Stub>::call'],
   'a Serve used as a Stub is served exactly once with the same context and request; ServerError becomes RpcError::Server')
 
